@@ -37,9 +37,9 @@ class Rejected(Exception):
         self.cls = type(exc).__name__
 
 
-def compile_variant(src: str, spec: str | None):
+def compile_variant(src: str, spec: str | None, bind: dict | None = None):
     try:
-        ctx, mod = compat.parse(src)
+        ctx, mod = compat.parse(src, bind=bind)
     except Exception as e:  # a shrink candidate may be ill-formed
         raise Rejected("parse", e)
     if spec:
